@@ -112,6 +112,14 @@ pub fn c15(opts: &Opts, out: &mut Out) {
             }
         }
     }
+    // (a') many rounds: the codec accepts any k >= 1 whatever parameters exist; serde must agree at every size
+    for d in 1u8..=6 {
+        for k in [5usize, 6, 7, 8, 9, 10, 11, 12, 16, 31, 32, 33, 63, 64, 65, 100, 200] {
+            let base = build(d, k, &mut rng);
+            emit(out, "structured-many-rounds", &base, &mut counts);
+            emit(out, "structured-many-rounds-short", &base[..base.len() - 32], &mut counts);
+        }
+    }
     // (b) every scalar slot at the canonical boundary
     let specials: Vec<[u8; 32]> = {
         let mut v = vec![];
@@ -185,6 +193,27 @@ pub fn c15(opts: &Opts, out: &mut Out) {
             let same = back.as_ref().map(|p| p == &proof).unwrap_or(false);
             out.oracle("C15:prover-output-roundtrip", same, &format!("roundtrip:bits={},agg={}", n, m), &format!("{} decode_ok={}", inst.describe(), back.is_ok()));
             emit(out, "prover-output", &b, &mut counts);
+            nprover += 1;
+        }
+    }
+    // the largest proofs the parameters allow, at the extreme extension degrees
+    for (n, m) in [(64usize, 2usize), (32, 4), (64, 4), (32, 8), (64, 8)] {
+        for t in [1usize, 3, 5, 6] {
+            if !opts.thorough && n * m == 512 && (t == 3 || t == 5) {
+                continue;
+            }
+            let inst = rrun::random_inst(n, m, m, t, n + m, m == 1, &mut rng);
+            let proof = inst.prove(&mut rng).expect("prove");
+            let b = proof.to_bytes();
+            let kappa = (n * m).ilog2() as usize;
+            out.oracle("C15:length-formula", b.len() == 1 + 32 * (5 + t + 2 * kappa), &inst.describe(), &format!("len={}", b.len()));
+            let back = rrun::Proof::from_bytes(&b);
+            let same = back.as_ref().map(|p| p == &proof).unwrap_or(false);
+            out.oracle("C15:prover-output-roundtrip", same, &format!("roundtrip:bits={},agg={}", n, m), &format!("{} decode_ok={}", inst.describe(), back.is_ok()));
+            let ser = bincode::serialize(&proof).unwrap();
+            let de: Result<rrun::Proof, _> = bincode::deserialize(&ser);
+            out.oracle("C15:prover-output-serde-roundtrip", de.as_ref().map(|p| p == &proof).unwrap_or(false), &format!("serde-roundtrip:bits={},agg={},t={}", n, m, t), &format!("{} serde_ok={}", inst.describe(), de.is_ok()));
+            emit(out, "prover-output-large", &b, &mut counts);
             nprover += 1;
         }
     }
